@@ -8,7 +8,7 @@ CONFIG = {
          "args": ["-mode", "concurrent"], "timeout": 600},
     ],
     "trusted_base": [
-        "atomicity of one cmbbs.PasswdUpdate / cache.passwdUpdateMoney call with respect to calls for OTHER slots (own descriptor, own encode buffer): NOT proved; the theorems slot_result_depends_only_on_own_operations / interleavings_agree say what every slot must hold IF calls are atomic, and the `concurrent` pass compares every slot of .PASSWDS and SHM (bystanders included) with that image after G concurrent single-slot writers (resetconc: money writers; resetconcrec: money writers + ptt.SetUserPerm + ptt.GetUser + a registrar)",
+        "atomicity of one cmbbs.PasswdUpdate / cache.passwdUpdateMoney call with respect to calls for OTHER slots (own descriptor, own encode buffer): NOT proved; the theorems slot_result_depends_only_on_own_operations / interleavings_agree say what every slot must hold IF calls are atomic, and the `concurrent` pass compares every slot of .PASSWDS and SHM (bystanders included) with that image after G concurrent single-slot writers (resetconc: money writers; resetconcrec: money writers + ptt.SetUserPerm + ptt.GetUser + a registrar; resetconcfld: a credit/debit racing with ptt.ChangePasswd / ptt.ChangeEmail of the SAME user, judged after every round)",
         "per-call descriptor design of cache.passwdUpdateMoney (every call opens .PASSWDS itself, so Seek+Write of one call cannot be interleaved with another call's): NOT proved; observed by the `concurrent` pass (G goroutines x N SetUMoney/DeUMoney on pairwise different slots incl. 1 and MAX_USERS, then every byte of .PASSWDS and SHM compared with the expected image)",
         "the slot a registration is given (free-slot search in the SHM user hash) is observed, not modelled: `newuser` lines carry the slot seen through cache.SearchUserRaw after ptt.SetupNewUser",
         "os.OpenFile/Seek/Write on .PASSWDS and encoding/binary little-endian: modelled as a byte-list write (a seek past the end leaves zero bytes); agreement checked on every run, including short, torn and missing files",
@@ -17,7 +17,7 @@ CONFIG = {
     ],
     "modelled": ["cache.SetUMoney", "cache.DeUMoney", "cache.MoneyOf", "cache.passwdUpdateMoney", "ptttype.UID.ToUIDInStore",
                  "ptt.passwdSyncQuery (through ptt.GetUser)", "ptt.passwdSyncUpdate (through ptt.SetUserPerm)",
-                 "cmbbs.PasswdQuery", "cmbbs.PasswdUpdate", "ptt.SetupNewUser (tail after cache.SetUserID)", "ptt.killUser (record / balance part; reached through tryCleanUser -> checkAndExpireAccount)",
+                 "cmbbs.PasswdQuery", "cmbbs.PasswdUpdate", "ptt.SetupNewUser (tail after cache.SetUserID)", "ptt.ChangeEmail / ptt.ChangePasswd as field writers (cmbbs.PasswdUpdateEmail / PasswdUpdatePasswd)", "ptt.killUser (record / balance part; reached through tryCleanUser -> checkAndExpireAccount)",
                  "cache.LoadUHash / fillUHash / userecRawAddToUHash (Userid, Money, invalid-id counter; fresh and on-the-fly; the hash chains are C04's)",
                  "ptttype.USE_COOLDOWN (site configuration, driven in both values)", "UserID_t.IsValid, types.Cstrcmp on user ids", "encoding/binary bool normalisation of UserecRaw"],
     "assumptions": [
@@ -30,6 +30,7 @@ CONFIG = {
         "the loader theorems are for a .PASSWDS of exactly MAX_USERS records (short, torn, long and missing files are compared with the model, not judged); MAX_USERS <= PRE_ALLOCATED_USERS (checked over the regenerated constants), so the invalid-id skip of the loader is unreachable",
         "an on-the-fly reload refills only slots whose owner changed: a slot whose Money alone was edited on disk keeps its SHM value (as in pttbbs); recorded and compared, not judged as a defect",
         "which accounts the clean-up sweep removes (clock, KEEP_DAYS_*, PERM_XEMPT: the account model, C03) is observed from .PASSWDS, not modelled; the oracle only requires that the accounts the history aged far beyond the limits are removed and that exempt / recent ones and slot 1 are not",
+        "ptt.ChangePasswd is driven only in the concurrent pass (its hash carries a random salt; those bytes are not compared); ptt.ChangeEmail also sequentially against the model",
         "single writer: concurrent SetUMoney/DeUMoney on one slot are outside this property",
         "MoneyOf on an invalid slot panics (index out of range); it writes nothing and is recorded, not judged",
     ],
